@@ -23,7 +23,7 @@ RULE = (
   "measured need or a non-default option/sleep mode; distinct = scenario hash"
 )
 BOUNDS = {
-  "quick": "rich model: 8 cone/solver/jacobian combos + 3 integrators; 5 small models; ~14 capacity assignments; 3 sleep modes; nworld=2",
+  "quick": "rich model: 8 cone/solver/jacobian combos + 3 integrators; 5 small models + a 7-sphere pile (complete island graph) x 3 sleep modes; ~14 capacity assignments; 3 sleep modes; nworld=2",
   "thorough": "adds the full 32-way option product on the rich model and capacity pairs over {0,1,2,fit-1,fit}^2",
 }
 ASSUMPTIONS = [
@@ -42,6 +42,17 @@ NA_GT_NU = """<mujoco><worldbody><body pos="0 0 0.5"><joint name="h" type="hinge
   <actuator><general name="u" joint="h" dyntype="user" actdim="3" gainprm="1"/></actuator></mujoco>"""
 
 
+# 7 mutually overlapping free spheres on a plane (complete tree-tree graph K7) plus a chain of connects: the densest island graph
+# a small model can have (depth-first island labelling revisits trees, per-tree scratch is stressed)
+PILE = (
+  '<mujoco><worldbody><geom type="plane" size="3 3 .1"/>'
+  + "".join(f'<body name="p{i}" pos="{0.03 * i:.2f} {0.02 * (i % 3):.2f} {0.19 + 0.01 * i:.2f}"><freejoint/><geom type="sphere" size=".2"/></body>' for i in range(7))
+  + "</worldbody><equality>"
+  + "".join(f'<connect body1="p{i}" body2="p{i + 1}" anchor="0 0 0"/>' for i in range(0, 6, 2))
+  + "</equality></mujoco>"
+)
+
+
 def _xml(model, opt, sleep):
   flag = ""
   if sleep == "on":
@@ -51,7 +62,7 @@ def _xml(model, opt, sleep):
   if model == "rich":
     x = scenes.rich(opt)
     return x.replace(f'<option timestep="0.004" {opt}></option>', f'<option timestep="0.004" {opt}>{flag}</option>')
-  base = {"nu0": NU0, "nv0": NV0, "ngeom0": NGEOM0, "na_gt_nu": NA_GT_NU, "small": scenes.small("")}[model]
+  base = {"nu0": NU0, "nv0": NV0, "ngeom0": NGEOM0, "na_gt_nu": NA_GT_NU, "small": scenes.small(""), "pile": PILE}[model]
   return base.replace("<worldbody>", f"<option {opt}>{flag}</option><worldbody>", 1) if "<option" not in base else base.replace('<option timestep="0.004" />', f'<option timestep="0.004" {opt}>{flag}</option>')
 
 
@@ -101,6 +112,10 @@ def scenarios(tier, seed):
     for opt in ('jacobian="dense"', 'jacobian="sparse"', 'cone="elliptic"'):
       for caps in ({}, {"njmax": "fit-1"}, {"naconmax": 1}, {"nvmax": 6}, {"nvmax": 0}):
         out.append(dict(model="rich", opt=opt, sleep=sleep, caps=caps))
+  for sleep in ("on", "noisland", "off"):
+    for opt in ('jacobian="dense"', 'jacobian="sparse" cone="elliptic"'):
+      for caps in ({}, {"njmax": "fit-1"}, {"naconmax": "fit-1"}):
+        out.append(dict(model="pile", opt=opt, sleep=sleep, caps=caps))
   for model in ("nu0", "nv0", "ngeom0", "na_gt_nu", "small"):
     for opt in ('jacobian="dense"', 'jacobian="sparse" cone="elliptic"', 'solver="CG"'):
       for caps in ({}, {"njmax": 0}, {"naconmax": 0}, {"njmax": 1, "naconmax": 1}):
